@@ -276,13 +276,45 @@ Qed.
 Lemma zlen_bound {A} (l : list A) : zlen l < 2 ^ 31 -> 0 <= zlen l < 2 ^ 31.
 Proof. pose proof (zlen_nonneg l). lia. Qed.
 
+(* NOTE on proof style: ThriftEdit.key_of_step walks a raw key with skip_go (depth fuel 1023) before decoding it. A kernel
+   conversion that has [key_of_step kt (PBinKey b)] (concrete constructor) as the scrutinee of a match does not terminate in
+   practice, so every lemma below treats maps with the step as a VARIABLE and goes through equations proved by
+   [destruct s; reflexivity] (insert_at_map_eq, remove_at_map_eq, raw_key_ok_unfold). *)
+Lemma insert_at_map_eq front s x kt vt es : insert_at front s x (VMap kt vt es) =
+  match key_pred kt s with
+  | None => None
+  | Some _ => match key_of_step kt s with Some kv => Some (VMap kt vt (ins front (kv, x) es)) | None => None end
+  end.
+Proof. destruct s; reflexivity. Qed.
+
+Lemma insert_base_map s x kt vt es kv : good (VMap kt vt es) -> to_raw s kt = Some (encode kv) ->
+  forall A B, exists bs' nb,
+    set_not_found T_MAP (zlen A + 6) s (A ++ encode (VMap kt vt es) ++ B) (encode x) (type_of x) = Some (bs', nb) /\
+    replace bs' (zlen A + 6) (zlen A + 6) nb = A ++ encode (VMap kt vt ((kv, x) :: es)) ++ B.
+Proof.
+  intros Hg Hraw A B. rewrite snf_map.
+  replace (zlen A + 6 - 6) with (zlen A) by lia. rewrite to_nat_zlen. cbn [encode app]. rewrite nth_app_len. rewrite Hraw.
+  eexists; eexists; split; [reflexivity|].
+  destruct (good_map_inv _ _ _ Hg) as [Hlen _].
+  change (A ++ kt :: vt :: (enc_int 4 (zlen es) ++ encP es) ++ B) with (A ++ (kt :: vt :: enc_int 4 (zlen es) ++ encP es) ++ B).
+  rewrite insert_pair by (apply zlen_bound; exact Hlen).
+  cbn [flat_map fst snd]. rewrite zlen_cons, (Z.add_comm 1). rewrite <- !app_assoc. cbn [app]. rewrite <- ?app_assoc. reflexivity.
+Qed.
+
 Lemma insert_base s x v v' : good v -> insert_at true s x v = Some v' -> raw_key_ok s v = true ->
   forall A B, exists bs' nb,
     set_not_found (type_of v) (zlen A + nf_start (type_of v)) s (A ++ encode v ++ B) (encode x) (type_of x) = Some (bs', nb) /\
     replace bs' (zlen A + nf_start (type_of v)) (zlen A + nf_start (type_of v)) nb = A ++ encode v' ++ B.
 Proof.
   intros Hg Hi Hraw A B.
-  destruct s as [id|i|ks|n|b]; destruct v as [?|?|?|?|?|?|?|fs|kt vt es|et es|et es]; cbn [insert_at] in Hi; try discriminate Hi.
+  destruct v as [?|?|?|?|?|?|?|fs|kt vt es|et es|et es].
+  9: { (* map: the step stays a variable *)
+    rewrite insert_at_map_eq in Hi.
+    destruct (key_pred kt s) as [pr|] eqn:Ep; [|discriminate Hi].
+    destruct (key_of_step kt s) as [kv|] eqn:Ek; [|discriminate Hi]. inversion Hi; subst v'.
+    cbn [type_of ins]. change (nf_start T_MAP) with 6.
+    apply insert_base_map; [exact Hg|]. apply to_raw_key; [exact Ek|]. eapply raw_key_ok_map; eassumption. }
+  all: destruct s as [id|i|ks|n|b]; cbn [insert_at] in Hi; try discriminate Hi.
   - (* struct *)
     inversion Hi; subst v'. cbn [type_of ins]. rewrite snf_struct. cbn [to_raw].
     eexists; eexists; split; [reflexivity|]. change (nf_start T_STRUCT) with 0.
@@ -297,58 +329,35 @@ Proof.
     eexists; eexists; split; [reflexivity|]. change (nf_start T_LIST) with 5.
     destruct (good_list_inv _ _ Hg) as [Hlen _]. cbn [encode].
     rewrite insert_elems by (apply zlen_bound; exact Hlen). rewrite zlen_cons, (Z.add_comm 1). reflexivity.
-  - (* map, string key *)
-    destruct (key_pred kt (PStrKey ks)) as [pr|] eqn:Ep; [|discriminate Hi].
-    destruct (key_of_step kt (PStrKey ks)) as [kv|] eqn:Ek; [|discriminate Hi]. inversion Hi; subst v'.
-    cbn [type_of ins]. rewrite snf_map. change (nf_start T_MAP) with 6.
-    replace (zlen A + 6 - 6) with (zlen A) by lia. rewrite to_nat_zlen. cbn [encode app]. rewrite nth_app_len.
-    rewrite (to_raw_key _ _ _ Ek (raw_key_ok_map _ _ _ _ _ Hraw Ek)).
-    eexists; eexists; split; [reflexivity|].
-    destruct (good_map_inv _ _ _ Hg) as [Hlen _].
-    change (A ++ kt :: vt :: (enc_int 4 (zlen es) ++ encP es) ++ B) with (A ++ (kt :: vt :: enc_int 4 (zlen es) ++ encP es) ++ B).
-    rewrite insert_pair by (apply zlen_bound; exact Hlen).
-    cbn [flat_map fst snd]. rewrite zlen_cons, (Z.add_comm 1). rewrite <- !app_assoc. cbn [app]. rewrite <- ?app_assoc. reflexivity.
-  - (* map, integer key *)
-    destruct (key_pred kt (PIntKey n)) as [pr|] eqn:Ep; [|discriminate Hi].
-    destruct (key_of_step kt (PIntKey n)) as [kv|] eqn:Ek; [|discriminate Hi]. inversion Hi; subst v'.
-    cbn [type_of ins]. rewrite snf_map. change (nf_start T_MAP) with 6.
-    replace (zlen A + 6 - 6) with (zlen A) by lia. rewrite to_nat_zlen. cbn [encode app]. rewrite nth_app_len.
-    rewrite (to_raw_key _ _ _ Ek (raw_key_ok_map _ _ _ _ _ Hraw Ek)).
-    eexists; eexists; split; [reflexivity|].
-    destruct (good_map_inv _ _ _ Hg) as [Hlen _].
-    change (A ++ kt :: vt :: (enc_int 4 (zlen es) ++ encP es) ++ B) with (A ++ (kt :: vt :: enc_int 4 (zlen es) ++ encP es) ++ B).
-    rewrite insert_pair by (apply zlen_bound; exact Hlen).
-    cbn [flat_map fst snd]. rewrite zlen_cons, (Z.add_comm 1). rewrite <- !app_assoc. cbn [app]. rewrite <- ?app_assoc. reflexivity.
-  - (* map, raw key *)
-    destruct (key_pred kt (PBinKey b)) as [pr|] eqn:Ep; [|discriminate Hi].
-    destruct (key_of_step kt (PBinKey b)) as [kv|] eqn:Ek; [|discriminate Hi]. inversion Hi; subst v'.
-    cbn [type_of ins]. rewrite snf_map. change (nf_start T_MAP) with 6.
-    replace (zlen A + 6 - 6) with (zlen A) by lia. rewrite to_nat_zlen. cbn [encode app]. rewrite nth_app_len.
-    rewrite (to_raw_key _ _ _ Ek (raw_key_ok_map _ _ _ _ _ Hraw Ek)).
-    eexists; eexists; split; [reflexivity|].
-    destruct (good_map_inv _ _ _ Hg) as [Hlen _].
-    change (A ++ kt :: vt :: (enc_int 4 (zlen es) ++ encP es) ++ B) with (A ++ (kt :: vt :: enc_int 4 (zlen es) ++ encP es) ++ B).
-    rewrite insert_pair by (apply zlen_bound; exact Hlen).
-    cbn [flat_map fst snd]. rewrite zlen_cons, (Z.add_comm 1). rewrite <- !app_assoc. cbn [app]. rewrite <- ?app_assoc. reflexivity.
 Qed.
 
 Lemma vlookup1_err v s : vlookup1 v s = LErr -> lookup1 v s = LErr.
 Proof. rewrite <- lsub_lookup1. destruct (lookup1 v s); cbn [lsub]; intros H; try discriminate H; reflexivity. Qed.
 
+Lemma key_of_step_some kt vt es s pr : key_pred kt s = Some pr -> raw_key_ok s (VMap kt vt es) = true ->
+  exists kv, key_of_step kt s = Some kv.
+Proof.
+  destruct s as [id|i|ks|n|b]; intros Hp Hraw; try discriminate Hp.
+  - cbn [key_pred] in Hp. cbn [key_of_step]. destruct (kt =? T_STRING); [eexists; reflexivity|discriminate Hp].
+  - cbn [key_pred] in Hp. cbn [key_of_step]. destruct (is_int_type kt) eqn:Ei; [|discriminate Hp]. unfold is_int_type in Ei.
+    destruct (kt =? T_BYTE); [eexists; reflexivity|]. destruct (kt =? T_I16); [eexists; reflexivity|].
+    destruct (kt =? T_I32); [eexists; reflexivity|]. destruct (kt =? T_I64); [eexists; reflexivity|]. discriminate Ei.
+  - rewrite raw_key_ok_unfold in Hraw. destruct (raw_key_judge_true _ _ _ Hraw) as [kv [Hk _]]. cbv beta in Hk.
+    exists kv. exact Hk.
+Qed.
+
 (* an absent last step that fits the container always has an insertion (given a decodable raw key) *)
 Lemma insert_at_some s x v : lookup1 v s = LNotFound -> raw_key_ok s v = true -> exists v', insert_at true s x v = Some v'.
 Proof.
   intros L Hraw.
-  destruct s as [id|i|ks|n|b]; destruct v as [?|?|?|?|?|?|?|fs|kt vt es|et es|et es]; try discriminate L; cbn [lookup1] in L; cbn [insert_at key_pred key_of_step].
+  destruct v as [?|?|?|?|?|?|?|fs|kt vt es|et es|et es].
+  9: { rewrite insert_at_map_eq. destruct (key_pred kt s) as [pr|] eqn:Ep.
+       - destruct (key_of_step_some _ _ _ _ _ Ep Hraw) as [kv Hk]. rewrite Hk. eexists; reflexivity.
+       - rewrite (lookup1_map_no_pred _ _ _ _ Ep) in L. discriminate L. }
+  all: destruct s as [id|i|ks|n|b]; try discriminate L; cbn [lookup1] in L; cbn [insert_at].
   - eexists; reflexivity.
   - destruct (i <? 0); [discriminate L|]. eexists; reflexivity.
   - destruct (i <? 0); [discriminate L|]. eexists; reflexivity.
-  - destruct (kt =? T_STRING); [|discriminate L]. eexists; reflexivity.
-  - destruct (is_int_type kt) eqn:Ei; [|discriminate L]. unfold is_int_type in Ei.
-    destruct (kt =? T_BYTE); [eexists; reflexivity|]. destruct (kt =? T_I16); [eexists; reflexivity|].
-    destruct (kt =? T_I32); [eexists; reflexivity|]. destruct (kt =? T_I64); [eexists; reflexivity|]. discriminate Ei.
-  - rewrite raw_key_ok_unfold in Hraw. destruct (raw_key_judge_true _ _ _ Hraw) as [kv [Hk _]]. cbv beta in Hk. cbn [key_of_step] in Hk.
-    destruct (decode (S (length b)) kt b) as [[kv' [|? ?]]|]; try discriminate Hk. eexists; reflexivity.
 Qed.
 
 (* ================= SET: the walk and the splice against ast_set, by induction on the path ================= *)
@@ -675,20 +684,21 @@ Proof.
   - rewrite (find_key_none _ _ HS) in H1. cbn [sres_matches] in H1. rewrite H1. reflexivity.
 Qed.
 
-Lemma to_raw_none kt vt es s : key_of_step kt s = None -> unset_last_ok s (VMap kt vt es) = true -> to_raw s kt = None.
-Proof.
-  (* no [discriminate] on a hypothesis that still mentions skip_go on variables: it would unfold 1023 levels of fuel *)
-  destruct s as [id|i|ks|n|b]; cbn [unset_last_ok key_of_step to_raw]; intros Hk Hu.
-  - discriminate Hu.
-  - reflexivity.
-  - rewrite Hu in Hk. discriminate Hk.
-  - destruct (kt =? T_BYTE); [discriminate Hk|]. destruct (kt =? T_I16); [discriminate Hk|].
-    destruct (kt =? T_I32); [discriminate Hk|]. destruct (kt =? T_I64); [discriminate Hk|]. reflexivity.
-  - rewrite raw_key_ok_unfold in Hu. destruct (raw_key_judge_true _ _ _ Hu) as [kv [Hk' _]]. cbv beta in Hk'. cbn [key_of_step] in Hk'. rewrite Hk in Hk'. discriminate Hk'.
-Qed.
-
 Lemma unset_last_ok_bin b kt vt es : unset_last_ok (PBinKey b) (VMap kt vt es) = raw_key_ok (PBinKey b) (VMap kt vt es).
 Proof. reflexivity. Qed.
+
+Lemma to_raw_none kt vt es s : key_of_step kt s = None -> unset_last_ok s (VMap kt vt es) = true -> to_raw s kt = None.
+Proof.
+  destruct s as [id|i|ks|n|b]; intros Hk Hu.
+  - discriminate Hu.
+  - reflexivity.
+  - cbn [unset_last_ok] in Hu. cbn [key_of_step] in Hk. rewrite Hu in Hk. discriminate Hk.
+  - cbn [key_of_step] in Hk. cbn [to_raw].
+    destruct (kt =? T_BYTE); [discriminate Hk|]. destruct (kt =? T_I16); [discriminate Hk|].
+    destruct (kt =? T_I32); [discriminate Hk|]. destruct (kt =? T_I64); [discriminate Hk|]. reflexivity.
+  - rewrite unset_last_ok_bin, raw_key_ok_unfold in Hu. destruct (raw_key_judge_true _ _ _ Hu) as [kv [Hk' _]]. cbv beta in Hk'.
+    rewrite Hk in Hk'. discriminate Hk'.
+Qed.
 
 Lemma unset_raw_key kt vt es s kv : unset_last_ok s (VMap kt vt es) = true -> key_of_step kt s = Some kv ->
   to_raw s kt = Some (encode kv).
@@ -696,6 +706,13 @@ Proof.
   intros Hu Hk. apply to_raw_key; [exact Hk|]. intros b ->. rewrite unset_last_ok_bin in Hu.
   exact (raw_key_ok_map (PBinKey b) kt vt es kv Hu Hk b eq_refl).
 Qed.
+
+Lemma remove_at_map_eq s kt vt es : remove_at s (VMap kt vt es) =
+  match key_of_step kt s with
+  | None => DErr
+  | Some kv => match del_key (bin_key_is (encode kv)) es with Some es' => DOk (VMap kt vt es') true | None => DOk (VMap kt vt es) false end
+  end.
+Proof. destruct s; reflexivity. Qed.
 
 (* deleteChild on the encoding of the parent against the last step of ast_unset *)
 Lemma delete_child_spec s c : good c -> unset_last_ok s c = true ->
@@ -707,33 +724,18 @@ Lemma delete_child_spec s c : good c -> unset_last_ok s c = true ->
   end.
 Proof.
   intros Hg Hu.
-  destruct c as [?|?|?|?|?|?|?|fs|kt vt es|et es|et es]; destruct s as [id|i|ks|n|b]; cbn [remove_at];
-    try (right; reflexivity); try (left; reflexivity); try discriminate Hu.
+  destruct c as [?|?|?|?|?|?|?|fs|kt vt es|et es|et es].
+  9: { (* map: the step stays a variable *)
+    rewrite remove_at_map_eq. destruct (key_of_step kt s) as [kv|] eqn:Ek.
+    - rewrite del_key_gdel. pose proof (dc_map_spec kt vt es s kv Hg (unset_raw_key _ _ _ _ _ Hu Ek)) as H. cbn [type_of].
+      destruct (gdel (bin_key_is (encode kv)) es) as [es'|]; exact H.
+    - left. cbn [type_of encode]. destruct (good_map_inv _ _ _ Hg) as [Hlen _].
+      rewrite dc_map_unfold, skip_count_ok by (apply zlen_bound; exact Hlen). rewrite (to_raw_none _ _ _ _ Ek Hu). reflexivity. }
+  all: destruct s as [id|i|ks|n|b]; cbn [remove_at]; try (right; reflexivity); try (left; reflexivity).
   - (* struct, field *)
     rewrite del_field_gdel. pose proof (dc_struct_spec fs id Hg) as H. cbn [type_of].
     destruct (gdel (fun i => i =? id) fs) as [fs'|]; [|exact H].
     destruct H as [s0 [e0 [H1 H2]]]. exists None, s0, e0. split; [exact H1|]. intros A B. cbn [apply_patch]. apply H2.
-  - (* map, index: ToRaw gives nil *)
-    left. cbn [type_of encode]. destruct (good_map_inv _ _ _ Hg) as [Hlen _].
-    rewrite dc_map_unfold, skip_count_ok by (apply zlen_bound; exact Hlen). reflexivity.
-  - (* map, string key *)
-    destruct (key_of_step kt (PStrKey ks)) as [kv|] eqn:Ek.
-    + rewrite del_key_gdel. pose proof (dc_map_spec kt vt es _ kv Hg (unset_raw_key _ _ _ _ _ Hu Ek)) as H. cbn [type_of].
-      destruct (gdel (bin_key_is (encode kv)) es) as [es'|]; exact H.
-    + left. cbn [type_of encode]. destruct (good_map_inv _ _ _ Hg) as [Hlen _].
-      rewrite dc_map_unfold, skip_count_ok by (apply zlen_bound; exact Hlen). rewrite (to_raw_none _ _ _ _ Ek Hu). reflexivity.
-  - (* map, integer key *)
-    destruct (key_of_step kt (PIntKey n)) as [kv|] eqn:Ek.
-    + rewrite del_key_gdel. pose proof (dc_map_spec kt vt es _ kv Hg (unset_raw_key _ _ _ _ _ Hu Ek)) as H. cbn [type_of].
-      destruct (gdel (bin_key_is (encode kv)) es) as [es'|]; exact H.
-    + left. cbn [type_of encode]. destruct (good_map_inv _ _ _ Hg) as [Hlen _].
-      rewrite dc_map_unfold, skip_count_ok by (apply zlen_bound; exact Hlen). rewrite (to_raw_none _ _ _ _ Ek Hu). reflexivity.
-  - (* map, raw key *)
-    destruct (key_of_step kt (PBinKey b)) as [kv|] eqn:Ek.
-    + rewrite del_key_gdel. pose proof (dc_map_spec kt vt es _ kv Hg (unset_raw_key _ _ _ _ _ Hu Ek)) as H. cbn [type_of].
-      destruct (gdel (bin_key_is (encode kv)) es) as [es'|]; exact H.
-    + left. cbn [type_of encode]. destruct (good_map_inv _ _ _ Hg) as [Hlen _].
-      rewrite dc_map_unfold, skip_count_ok by (apply zlen_bound; exact Hlen). rewrite (to_raw_none _ _ _ _ Ek Hu). reflexivity.
   - (* set, index *)
     destruct (good_set_inv _ _ Hg) as [Hlen HF]. cbn [type_of]. rewrite dc_set.
     pose proof (dc_elems_spec et es i (VSet et) ltac:(reflexivity) Hlen HF) as H.
